@@ -15,13 +15,16 @@ code->spec: specs/Trace_Block: real renders (all modes / alpha settings / termin
 
 from __future__ import annotations
 
+import contextlib
 import hashlib
+import io
 import itertools
 import json
 import os
 import random
 import shutil
 import time
+from decimal import Decimal
 from fractions import Fraction
 from pathlib import Path
 
@@ -41,10 +44,11 @@ ASSUMPTIONS = [
     "('#' = terminal background, black if unknown) or - for a float threshold - over the terminal "
     "background (black if unknown); images whose pixel size equals the render resolution with "
     "bi-level alpha need none of this (expected = source pixels)",
-    "alpha threshold: a pixel is opaque if alpha/255 is above the threshold, transparent if below; "
-    "a pixel exactly at the threshold or less than half an 8-bit level below it "
-    "(0 <= 255*num - a*den <= den/2, i.e. the threshold quantised to the nearest 8-bit level) is "
-    "accepted either way",
+    "alpha threshold (documented rule, exact arithmetic on the decimal fraction of the threshold's "
+    "repr): a pixel is transparent iff alpha/255 is below the threshold, opaque iff above; exactly "
+    "equal is accepted either way (DESIGN C02). No tolerance for the library's 8-bit quantisation "
+    "of the threshold: a transparent pixel drawn opaque within half a level of the threshold is a "
+    "violation with its own clause (threshold-rounded-down / threshold-tie-rounded-down)",
     "kitty workaround (documented deviation, DESIGN 2.5): on kitty with a known terminal "
     "background, a half-cell shown through the cell BACKGROUND whose colour equals the terminal "
     "background must be emitted with r+1 (r-1 for r=255); never otherwise",
@@ -53,7 +57,8 @@ ASSUMPTIONS = [
 ]
 
 MODES = ["1", "L", "LA", "P", "PA", "RGB", "RGBA", "CMYK", "HSV"]
-ALPHAS = [None, 0.0, 0.3, 0.5, 0.999, 40 / 255, "#", "#a0b1c2"]
+ALPHAS = [None, 0.0, 0.001, 0.25, 0.3, 0.5, 0.9, 0.999, 40 / 255, "#", "#a0b1c2"]
+THRESHOLDS = [a for a in ALPHAS if isinstance(a, float)] + [0.4, 0.05, 0.7]
 TERM_BGS = [None, (16, 32, 48), (255, 64, 0), (0, 0, 0), (255, 255, 255)]
 SPEC_MUTANTS = ["drop_t2o", "drop_o2t", "blank_without_bg", "kitty_always", "keep_n"]
 NAMED_ACTIONS = [
@@ -103,8 +108,18 @@ def render_block(src, rw, rh, alpha, split, via):
         return str(image)
     if via == "format":
         return format(image, "1.1" + alpha_spec(alpha))
+    if via == "draw":
+        return drawn(image, alpha)
     kw = {"split_cells": True} if split else {}
     return image._renderer(image._render_image, alpha, **kw)
+
+
+def drawn(image, alpha) -> str:
+    """What BaseImage.draw() writes (no padding: padding smaller than the render has no effect)."""
+    buf = io.StringIO()
+    with contextlib.redirect_stdout(buf):
+        image.draw(pad_width=1, pad_height=1, alpha=alpha, animate=False, check_size=False)
+    return buf.getvalue()
 
 
 def alpha_spec(alpha) -> str:
@@ -138,6 +153,20 @@ def has_alpha(img) -> bool:
     )
 
 
+def thr_digits(alpha: float):
+    """The threshold as the decimal digits after the point of its repr (exact; no rounding)."""
+    text = format(Decimal(repr(float(alpha))), "f")
+    whole, _, frac = text.partition(".")
+    if whole != "0" or not 0 <= alpha < 1:
+        raise tlc.MachineryError(f"alpha threshold {alpha!r} outside [0, 1)")
+    return [int(ch) for ch in (frac or "0")]
+
+
+def threshold_level(alpha: float) -> Fraction:
+    """255 * threshold, exactly (only used by the pixel GENERATOR, never to judge)."""
+    return Fraction(Decimal(repr(float(alpha)))) * 255
+
+
 def hexcol(c) -> str:
     return "#%02x%02x%02x" % tuple(c)
 
@@ -167,8 +196,7 @@ def pixels_at_render_resolution(src, rw, rh, alpha, tbg):
             bg = Image.new("RGBA", size, hexcol(tbg) if tbg else "#000000")
             bg.alpha_composite(im)
             flat = [(*p[:3], a) for p, a in zip(bg.getdata(), im.getchannel("A").getdata())]
-            f = Fraction(alpha).limit_denominator(1000)
-            thr = [f.numerator, f.denominator]
+            thr = thr_digits(alpha)
     rows = [flat[y * rw : (y + 1) * rw] for y in range(2 * rh)]
     return rows, thr
 
@@ -418,12 +446,30 @@ def make_source(rng: random.Random, mode: str, w: int, h: int, style: str):
         im = Image.new("RGBA", (w, h))
         im.putdata(px)
         return im if mode == "RGBA" else im.convert("RGB")
+    if style.startswith("boundary:"):
+        # alphas exactly at floor / ceil of 255 * threshold and +-1 around them, inside colour runs
+        lvl = threshold_level(float(style.split(":")[1]))
+        lo, hi = lvl.__floor__(), lvl.__ceil__()
+        alphas = sorted({min(255, max(0, x + k)) for x in (lo, hi) for k in (-1, 0, 1)})
+        palette = [tuple(rng.randrange(256) for _ in range(3)) for _ in range(2)] + [(255, 255, 255)]
+        px = []
+        cur = rng.choice(palette)
+        for _ in range(w * h):
+            if rng.random() < 0.25:
+                cur = rng.choice(palette)
+            px.append((*cur, rng.choice(alphas + [0, 255])))
+        for i, a in enumerate(alphas):  # every boundary alpha is present whenever there is room
+            if i < len(px):
+                px[(i * 7) % len(px)] = (*px[(i * 7) % len(px)][:3], a)
+        im = Image.new("RGBA", (w, h))
+        im.putdata(px)
+        return im if mode == "RGBA" else im.convert(mode)
     return imgs.make_image(rng, mode, w, h, style)
 
 
 def gen_cases(rng: random.Random, tier: str):
     sizes = [(w, h) for w in range(1, 9) for h in range(1, 6)]
-    reps = 6 if tier == "quick" else 60
+    reps = 4 if tier == "quick" else 40
     combos = list(itertools.product(MODES, ALPHAS, (False, True), (False, True)))
     for mode, alpha, kitty, split in combos:
         for _ in range(reps):
@@ -450,12 +496,26 @@ def gen_cases(rng: random.Random, tier: str):
                        style=style, src=[rw, 2 * rh], seed=rng.randrange(1 << 30))
 
 
+def gen_boundary_cases(rng: random.Random, tier: str):
+    """Thresholds x every route, sources at native resolution whose alphas sit on the threshold level."""
+    reps = 1 if tier == "quick" else 6
+    for thr in THRESHOLDS:
+        routes = ["format", "renderer", "draw", "split"] + (["str"] if thr == 40 / 255 else [])
+        for route in routes:
+            for _ in range(reps):
+                rw, rh = rng.choice([(8, 1), (6, 2), (8, 3), (4, 2)])
+                yield dict(mode=rng.choice(["RGBA", "RGBA", "LA"]), alpha=thr, kitty=rng.random() < 0.3,
+                           split=route == "split", rw=rw, rh=rh, tbg=rng.choice(TERM_BGS),
+                           style=f"boundary:{thr!r}", src=[rw, 2 * rh], seed=rng.randrange(1 << 30),
+                           via="renderer" if route == "split" else route)
+
+
 def choose_via(case, rng_bits: int) -> str:
     if case["split"]:
         return "renderer"
     if case["alpha"] == 40 / 255 and rng_bits % 2:
         return "str"
-    return ("format", "renderer")[(rng_bits // 2) % 2]
+    return ("format", "renderer", "draw")[(rng_bits // 2) % 3]
 
 
 def trace_of(case):
@@ -490,8 +550,7 @@ def trace_of(case):
                 px.append((*p[:3], 255))
         rows = [px[y * rw : (y + 1) * rw] for y in range(2 * rh)]
         if transparent:
-            f = Fraction(case["alpha"]).limit_denominator(1000)
-            thr = [f.numerator, f.denominator]
+            thr = thr_digits(case["alpha"])
         else:
             thr = []
         oracle = "none"
@@ -516,7 +575,7 @@ def pil_shape(img):
 # ----------------------------------------------------------------------------------------------
 HIST_KINDS = ["pil-jpeg", "pil-png", "pil-gif", "pil-mem", "file-jpeg", "file-png", "file-gif"]
 HIST_SHAPES = ["small-large", "large-small-large", "seek", "ratio"]
-HIST_ALPHAS = [None, 40 / 255, 0.5, "#", "#a0b1c2"]
+HIST_ALPHAS = [None, 40 / 255, 0.5, 0.25, 0.9, "#", "#a0b1c2"]
 
 
 def gen_histories(rng: random.Random, tier: str):
@@ -618,7 +677,7 @@ def history_traces(h):
                 alpha = rng.choice(HIST_ALPHAS)
                 split = rng.random() < 0.2
                 via = "renderer" if split else rng.choice(
-                    ["renderer", "format"] + (["str"] if alpha == 40 / 255 else []))
+                    ["renderer", "format", "draw"] + (["str"] if alpha == 40 / 255 else []))
                 frame = image.tell() if frames > 1 else 0
                 rw, rh = image.rendered_size
                 ref = fresh(frame)
@@ -628,6 +687,8 @@ def history_traces(h):
                     out = str(image)
                 elif via == "format":
                     out = format(image, "1.1" + alpha_spec(alpha))
+                elif via == "draw":
+                    out = drawn(image, alpha)
                 else:
                     out = image._renderer(image._render_image, alpha, **({"split_cells": True} if split else {}))
                 stream = lex_checked(out, h)
@@ -902,6 +963,7 @@ def _main(rep: Report, replay: dict | None) -> None:
     t0 = time.time()
 
     cases = list(gen_cases(random.Random(rep.seed * 7919 + 5), rep.tier))
+    cases += list(gen_boundary_cases(random.Random(rep.seed * 32452843 + 3), rep.tier))
     histories = list(gen_histories(random.Random(rep.seed * 15485863 + 11), rep.tier))
     code_to_spec(rep, cases, histories)
     timing["traces"] = round(time.time() - t0, 1)
